@@ -57,7 +57,7 @@ def case_(draw, tier, backends, Nmax, Jmax):
                         else gens.record(N, kinds=["noise", "ar1", "sines", "impulse"], scale=False)),
             "how": draw(st.sampled_from(["full", "full", "single"]))}
     if case["how"] == "single":
-        case["L"] = draw(st.one_of(st.integers(1, min(N, 8)), st.integers(1, N)))
+        case["L"] = draw(st.one_of(st.integers(1, min(N, 8)), st.integers(1, N), st.sampled_from([64, 128, 256, 512, 1024]).map(lambda v: min(v, N))))
         case["fbin"] = draw(st.floats(0.0, 0.5))
     return case
 
